@@ -23,6 +23,7 @@ def run(ctx: Context) -> None:
     ctx.rule('R10.3', "node / edge / face coordinate variables are looked up by the names in the mesh attributes, x first and y second, dataset-wide", floor=6)
     ctx.rule('R10.4', "derived tables agree with face-node: one consecutive-pair iterator (closing the ring), edges keyed by unordered node pair, edge-face filled per face edge, face-face written in both directions", floor=10)
     ctx.rule('R10.5', "dimensions are discovered from the mesh attributes with the documented fall-backs", floor=5)
+    ctx.rule('R10.6', "normalising a table never writes into the dataset's own arrays (a second topology on the same data sees the same file)", floor=1)
     ctx.assume("numpy.ma masked_invalid / masked_equal / masked_array semantics; UGRID attribute names are fixed by the specification")
 
     # ------------------------------------------------------------------ R10.1
@@ -111,6 +112,9 @@ def run(ctx: Context) -> None:
     ctx.check('R10.1', not offenders, "no other code reads the raw values of a connectivity variable", offenders[0][0] if offenders else ti,
               offenders[0][1] if offenders else ti.node, construct='raw connectivity reads outside _to_index_array: ' +
               (', '.join(f"{f.short}: {norm_text(n)}" for f, n in offenders) or 'none'))
+
+    from .common import purity_obligations
+    purity_obligations(ctx, 'R10.6', ti, [da], "_to_index_array")
 
     # ------------------------------------------------------------------ R10.2
     for tab in TABLES:
@@ -248,6 +252,25 @@ def run(ctx: Context) -> None:
     ok = ("if not self.has_edge_dimension" in txt and "return self.mesh_attributes['edge_dimension']" in txt
           and "topo_keys = ['edge_node_connectivity', 'edge_face_connectivity']" in txt and 'variable.dims[0] for variable in variables' in txt)
     ctx.check('R10.5', ok, "edge dimension: the edge_dimension attribute, else the first dimension of a supplied edge table", ed, ed.node)
+    # the declared attribute wins over the inferred dimension (a transposed table would otherwise name the wrong one)
+    from ..pattern import Matcher
+    med = Matcher(ctx, ed)
+    attr_ret = [r for r in ed.returns() if norm_text(r.value) == "self.mesh_attributes['edge_dimension']"]
+    infer_ret = [r for r in ed.returns() if 'dims[0]' in norm_text(ctx.flow(ed).resolve(r.value))]
+    ok = len(attr_ret) == 1 and len(infer_ret) == 1 and attr_ret[0].lineno < infer_ret[0].lineno \
+        and not any(any(x is attr_ret[0] for x in ast.walk(h)) for t in ast.walk(ed.node) if isinstance(t, ast.Try) for h in t.handlers)
+    ctx.check('R10.5', ok, "the edge_dimension attribute is consulted first; the first dimension of an edge table is only the fall-back", ed,
+              attr_ret[0] if attr_ret else ed.node, construct=f"edge_dimension returns, in order: {[norm_text(r.value) for r in sorted(ed.returns(), key=lambda r: r.lineno)]}")
+    tw = ctx.func(f"{TOPO}.two_dimension")
+    mt = Matcher(ctx, tw)
+    std = mt.stmt("if $two in self.dataset.sizes and self.dataset.sizes[$two] == 2:\n    return $two")
+    scan = [n for n in walk_no_nested(tw.node) if isinstance(n, ast.For) and 'sizes.items()' in norm_text(n.iter)]
+    two_def = [n for n in walk_no_nested(tw.node) if isinstance(n, ast.Assign) and const_value(n.value, None) == 'Two']
+    ok = std is not None and len(scan) == 1 and std.lineno < scan[0].lineno and len(two_def) == 1 and mt.name('two') == norm_text(two_def[0].targets[0]) \
+        and any(isinstance(s, ast.If) and norm_text(s.test).endswith('== 2') and any(isinstance(x, ast.Return) for x in s.body) for s in scan[0].body) \
+        and norm_text(tw.returns()[-1].value) == mt.name('two')
+    ctx.check('R10.5', ok, "the size-2 dimension is the one named 'Two' when it exists with size 2, else the first dimension of size 2, else a new 'Two'", tw, tw.node,
+              construct='two_dimension: standard name first, then any size-2 dimension, then the standard name')
     he = ctx.func(f"{TOPO}.has_edge_dimension")
     txt = ' '.join(norm_text(s) for s in he.body)
     ok = ("if 'edge_dimension' in self.mesh_attributes: return True" in txt.replace('\n', ' ')
@@ -279,5 +302,8 @@ VARIANTS = [
     V('C10', 'ring-not-closed', _U, "            node_indexes = numpy.append(node_indexes, node_indexes[0])\n", "", 'R10.4'),
     V('C10', 'ordered-pair-lookup', _U, "                edge_index = node_pair_to_edge_index[frozenset(node_pair)]", "                edge_index = node_pair_to_edge_index[tuple(node_pair)]", 'R10.4'),
     V('C10', 'face-face-one-direction', _U, "            face_face[right, face_count[right]] = left\n", "", 'R10.4'),
+    V('C10', 'edge-dimension-inferred-first', _U, "        with suppress(KeyError):\n            return self.mesh_attributes['edge_dimension']\n", "", 'R10.5'),
+    V('C10', 'two-dimension-any-size-2', _U, "        if two in self.dataset.sizes and self.dataset.sizes[two] == 2:\n            return two\n", "", 'R10.5'),
+    V('C10', 'masked-invalid-no-copy', _U, "            masked_values = numpy.ma.masked_invalid(values)", "            masked_values = numpy.ma.masked_invalid(values, copy=False)", 'R10.6'),
     V('C10', 'face-dimension-fallback-last', _U, "            return self.face_node_connectivity.dims[0]", "            return self.face_node_connectivity.dims[-1]", 'R10.5'),
 ]
